@@ -12,13 +12,28 @@ import (
 // alias type (mode 1), or zero values / typed nil pointers of every alias type (mode 2), or nothing (mode 0), through the
 // entry points that classify element values. Correct code classifies a value by looking at the value; code that remembers
 // a verdict per type is met in both orders in every run.
-func procWarm(mode int) {
-	if mode >= 3 {
+var procLogging bool
+
+// RestoreProcDefaults puts the package defaults back to what the process mode prescribes (for cases that change them).
+func RestoreProcDefaults() {
+	if procLogging {
 		w := log.New(io.Discard, "", 0)
 		stackage.SetDefaultStackLogger(w)
 		stackage.SetDefaultConditionLogger(w)
 		stackage.SetDefaultStackLogLevel(stackage.AllLogLevels)
 		stackage.SetDefaultConditionLogLevel(stackage.AllLogLevels)
+		return
+	}
+	stackage.SetDefaultStackLogger("none")
+	stackage.SetDefaultConditionLogger("none")
+	stackage.SetDefaultStackLogLevel(stackage.NoLogLevels)
+	stackage.SetDefaultConditionLogLevel(stackage.NoLogLevels)
+}
+
+func procWarm(mode int) {
+	if mode >= 3 {
+		procLogging = true
+		RestoreProcDefaults()
 		mode -= 3
 	}
 	if mode == 0 {
